@@ -159,10 +159,11 @@ Definition conn_reset (w : cworld) : cworld :=
   CW (cw_node w) (Peer (p_best (cw_peer w)) false) [MVersion] [] (cw_heard w).
 
 (* InvHandler.Handle for a block inventory of the trusted peer (internal/handlers/inventory.go):
-   nothing while the node is not in sync (early return); in sync: ClearInSync, so that the periodic
-   check requests headers again (fix 903636f - before it a block inventory was ignored) *)
-Definition handle_block_inv (s : sync) : sync :=
-  if ready s then clear_in_sync s else s.
+   ClearInSync, in sync (fix 903636f - before it a block inventory was ignored) and out of sync (a block found
+   while the last announced blocks are still being processed is announced by inventory as long as the peer has
+   not been told "sendheaders": a pending sync must be confirmed by the peer again, so that the periodic check
+   requests headers before the node calls itself in sync) *)
+Definition handle_block_inv (s : sync) : sync := clear_in_sync s.
 
 Definition set_node (w : cworld) (n : world) : cworld :=
   CW n (cw_peer w) (cw_chan w) (cw_reqs w) (cw_heard w).
@@ -401,7 +402,8 @@ Definition crun (MAXR LIM HT HDT BT DELTA : Z) (M : nat) (parents : list (Z * Z)
           delivered blocks are never processed again on this connection
      199  malformed observation *)
 
-Record cobs := CO { co_ready : bool; co_nreq : Z; co_chain : list Z; co_missing : Z; co_alive : bool; co_best : list Z; co_payload : list Z }.
+Record cobs := CO { co_ready : bool; co_nreq : Z; co_chain : list Z; co_missing : Z; co_alive : bool; co_best : list Z; co_payload : list Z;
+                    co_nchan : Z; co_nreqs : Z   (* messages in flight to the node / to the peer after the step *) }.
 
 Definition parse_cobs (ob : obs) : option cobs :=
   match parse_obs ob with
@@ -414,7 +416,8 @@ Definition parse_cobs (ob : obs) : option cobs :=
           | miss :: _ :: alive :: B :: rest2 =>
               if (B <? 0) || (zlen rest2 <? B) then None else
               Some (CO (d_ready d) (d_nreq d + nth 6 ob 0) (d_chain d) miss (negb (alive =? 0)) (take (Z.to_nat B) rest2)
-                       (drop (Z.to_nat n) rest))
+                       (drop (Z.to_nat n) rest)
+                       (nth (Z.to_nat B) rest2 0) (nth (S (Z.to_nat B)) rest2 0))
           | _ => None
           end
       | [] => None
@@ -434,10 +437,13 @@ Fixpoint has_insync (fuel : nat) (p : list Z) : bool :=
       end
   end.
 
-Definition in_order (o : cop) : bool :=
+(* is the step an in-order one, given how many messages were in flight to the node (nchan) / to the peer (nreqs)
+   before it: position k mod length = 0 is the head of the queue; a duplication of nothing is no step at all *)
+Definition in_order (nchan nreqs : Z) (o : cop) : bool :=
   match o with
-  | CAct (ADeliver k) | CAct (AAnswer k) => (k =? 0)%nat
-  | CAct (ADup _) => false
+  | CAct (ADeliver k) => (nchan <=? 0) || (Z.of_nat k mod nchan =? 0)
+  | CAct (AAnswer k) => (nreqs <=? 0) || (Z.of_nat k mod nreqs =? 0)
+  | CAct (ADup _) => nchan <=? 0
   | _ => true
   end.
 
@@ -471,18 +477,19 @@ Definition c01_step (fifo last : bool) (o : cop) (c : cobs) : Z :=
       end
   end.
 
-Fixpoint c01_from (fifo : bool) (i : Z) (ops : list cop) (tr : list obs) : option (Z * obs) :=
+Fixpoint c01_from (fifo : bool) (nchan nreqs : Z) (i : Z) (ops : list cop) (tr : list obs) : option (Z * obs) :=
   match ops, tr with
   | o :: ops', ob :: tr' =>
       match parse_cobs ob with
       | None => Some (i, [199])
       | Some c =>
-          let fifo1 := fifo && in_order o in
+          let fifo1 := fifo && in_order nchan nreqs o in
           let code := c01_step fifo1 (match ops' with [] => true | _ => false end) o c in
-          if negb (code =? 0) then Some (i, [code]) else c01_from fifo1 (i + 1) ops' tr'
+          if negb (code =? 0) then Some (i, [code]) else c01_from fifo1 (co_nchan c) (co_nreqs c) (i + 1) ops' tr'
       end
   | [], [] => None
   | _, _ => Some (i, [197])
   end.
 
-Definition c01_monitor : checker cop := fun ops tr => c01_from true 0 ops tr.
+(* a connection starts with the peer's version message in flight *)
+Definition c01_monitor : checker cop := fun ops tr => c01_from true 1 0 0 ops tr.
